@@ -427,6 +427,53 @@ val listArray_fill :
 
 val unique : z list -> z -> z list -> (z list * z list) kres
 
+val reduce_nonlocal_outstartsstops :
+  z list -> z list -> z list -> z -> z -> (z list * z list) kres
+
+val numpyArray_copy : z list -> z list -> z -> z list kres
+
+val numpyArray_contiguous_copy :
+  z list -> z list -> z -> z -> z list -> z list kres
+
+val numpyArray_getitem_next_null :
+  z list -> z list -> z -> z -> z list -> z list kres
+
+val numpyArray_fill_tocomplex : z list -> z -> z list -> z -> z list kres
+
+val numpyArray_fill_fromcomplex :
+  ity -> z list -> z -> z list -> z -> z list kres
+
+val numpyArray_rearrange_shifted :
+  z list -> z list -> z -> z list -> z -> z list -> z list -> z list kres
+
+val numpyArray_subrange_equal :
+  z list -> z list -> z list -> z -> z list -> z list kres
+
+val reduce_sum_complex : z list -> z list -> z list -> z -> z -> z list kres
+
+val reduce_prod_complex : z list -> z list -> z list -> z -> z -> z list kres
+
+val reduce_minmax_complex :
+  bool -> z -> z list -> z list -> z list -> z -> z -> z list kres
+
+val reduce_arg_complex :
+  bool -> z list -> z list -> z list -> z -> z -> z list kres
+
+val reduce_bool_complex :
+  ity -> z -> (z -> bool -> z) -> z list -> z list -> z list -> z -> z -> z
+  list kres
+
+val reduce_countnonzero_complex :
+  z list -> z list -> z list -> z -> z -> z list kres
+
+val reduce_sum_bool_complex :
+  z list -> z list -> z list -> z -> z -> z list kres
+
+val reduce_prod_bool_complex :
+  z list -> z list -> z list -> z -> z -> z list kres
+
+val content_reduce_zeroparents : z list -> z -> z list kres
+
 type val0 =
 | VI of z
 | VL of z list
@@ -513,6 +560,24 @@ type kname =
 | K_UnionArray_fillindex
 | K_ListArray_fill
 | K_unique
+| K_reduce_nonlocal_outstartsstops
+| K_NumpyArray_copy
+| K_NumpyArray_contiguous_copy
+| K_NumpyArray_getitem_next_null
+| K_NumpyArray_fill_tocomplex
+| K_NumpyArray_fill_fromcomplex
+| K_NumpyArray_rearrange_shifted
+| K_NumpyArray_subrange_equal
+| K_reduce_sum_complex
+| K_reduce_prod_complex
+| K_reduce_min_complex
+| K_reduce_max_complex
+| K_reduce_argmin_complex
+| K_reduce_argmax_complex
+| K_reduce_countnonzero_complex
+| K_reduce_sum_bool_complex
+| K_reduce_prod_bool_complex
+| K_content_reduce_zeroparents
 
 val ty : ity list -> nat -> ity
 
